@@ -210,8 +210,12 @@ def extract():
     facts["loserNodeComp"], facts["loserNodeOrdering"] = na, no
     facts["loserTokenComp"], facts["loserTokenOrdering"] = ta, to
     # the drop path tears down exactly when the decrement saw 1
-    m = re.search(r"let\s+(\w+)\s*=\s*ref_count\s*\.\s*fetch_sub[^;]*;\s*(?:#\[cfg\(cstree_verif\)\][^;]*;\s*)*if\s+(\w+)\s*==\s*([0-9_]+)", drop_body or "")
-    facts["teardownWhenPrev"] = rust_int(m.group(3)) if (m and m.group(1) == m.group(2)) else None
+    m = re.search(r"let\s+(\w+)\s*=\s*ref_count\s*\.\s*fetch_sub[^;]*;\s*(?:#\[cfg\(cstree_verif\)\][^;]*;\s*)*if\s+(?:(\w+)\s*==\s*([0-9_]+)|([0-9_]+)\s*==\s*(\w+))\s*\{", drop_body or "")
+    if m:
+        var, lit = (m.group(2), m.group(3)) if m.group(2) else (m.group(5), m.group(4))
+        facts["teardownWhenPrev"] = rust_int(lit) if var == m.group(1) else None
+    else:
+        facts["teardownWhenPrev"] = None
     # every access to the counter is a read-modify-write (loads/stores would break the release sequence argument);
     # loads inside cfg(cstree_verif) hooks are not part of the protocol
     no_hooks = re.sub(r"#\[cfg\(cstree_verif\)\]\s*(?:\{[^{}]*\}|[^;]*;)", "", n)
